@@ -74,7 +74,7 @@ func gen(r *rand.Rand, thorough bool, i int) []string {
 				dup = true
 			}
 		}
-		if !dup && r.Intn(3) == 0 {
+		if !dup && (r.Intn(3) == 0 || (c.kind == "authorizer" && r.Intn(2) == 0)) {
 			add(c.kind, c.id, c.wallet)
 		}
 	}
@@ -105,6 +105,12 @@ func gen(r *rand.Rand, thorough bool, i int) []string {
 		step(fmt.Sprintf("lock blobber 31 46 %d %d", 1000*coin, nows[0]))
 		step("alloc 47 30 31 1000000000")
 	}
+	hasAuth := false
+	for _, p := range ps {
+		if p.kind == "authorizer" {
+			hasAuth = true
+		}
+	}
 	n := 10 + r.Intn(20)
 	if thorough {
 		n = 15 + r.Intn(60)
@@ -122,6 +128,8 @@ func gen(r *rand.Rand, thorough bool, i int) []string {
 			step(fmt.Sprintf("unlock %s %d %d 2000000000", p.kind, p.id, client(p)))
 		case x < 72:
 			step(fmt.Sprintf("collect %s %d %d", p.kind, p.id, client(p)))
+		case x >= 87 && x < 92 && hasAuth:
+			step(fmt.Sprintf("delauth 40 %d", []int{3, 3, 60, 45}[r.Intn(4)])) // zcnsc delete-authorizer: pools marked Deleted, nothing paid
 		case x < 90:
 			step(fmt.Sprintf("reward %s %d %d", p.kind, p.id, []uint64{1000, 7, 123456789, 1, 0, 5 * coin, 999999}[r.Intn(7)]))
 		case x < 94:
